@@ -51,6 +51,55 @@ func app(sort Sort, op string, args ...*Term) *Term {
 	return mk(sort, sb.String())
 }
 
+// defTable maps a named constant to its defining term (current function only; VC generation is
+// single-threaded). It lets selectors fold through names: itag(x) where x := (mkiface 5 p) is 5.
+var defTable = map[string]*Term{}
+
+func peek(t *Term) *Term {
+	for i := 0; i < 8; i++ {
+		d, ok := defTable[t.S]
+		if !ok {
+			return t
+		}
+		t = d
+	}
+	return t
+}
+
+// ctorArgs splits "(ctor a b c)" into its argument s-expressions if t is an application of ctor.
+func ctorArgs(t *Term, ctor string) []string {
+	t = peek(t)
+	pre := "(" + ctor + " "
+	if !strings.HasPrefix(t.S, pre) {
+		return nil
+	}
+	body := t.S[len(pre) : len(t.S)-1]
+	var out []string
+	depth, start := 0, 0
+	for i := 0; i < len(body); i++ {
+		switch body[i] {
+		case '(':
+			depth++
+		case ')':
+			depth--
+		case ' ':
+			if depth == 0 {
+				out = append(out, body[start:i])
+				start = i + 1
+			}
+		}
+	}
+	out = append(out, body[start:])
+	return out
+}
+
+func isNumeralOrNeg(s string) bool {
+	if isNumeral(s) {
+		return true
+	}
+	return strings.HasPrefix(s, "(- ") && isNumeral(s[3:len(s)-1])
+}
+
 var (
 	TTrue  = mk(SBool, "true")
 	TFalse = mk(SBool, "false")
@@ -78,10 +127,10 @@ func BoolLit(b bool) *Term {
 }
 
 func Not(a *Term) *Term {
-	if a == TTrue {
+	if a.S == "true" {
 		return TFalse
 	}
-	if a == TFalse {
+	if a.S == "false" {
 		return TTrue
 	}
 	if strings.HasPrefix(a.S, "(not ") {
@@ -149,6 +198,26 @@ func Eq(a, b *Term) *Term {
 	}
 	if a.S == b.S {
 		return TTrue
+	}
+	if a.Sort == SInt {
+		pa, pb := peek(a), peek(b)
+		if isNumeralOrNeg(pa.S) && isNumeralOrNeg(pb.S) && pa.S != pb.S {
+			return TFalse
+		}
+	}
+	if a.Sort == SBool {
+		if b.S == "true" {
+			return a
+		}
+		if a.S == "true" {
+			return b
+		}
+		if b.S == "false" {
+			return Not(a)
+		}
+		if a.S == "false" {
+			return Not(b)
+		}
 	}
 	return app(SBool, "=", a, b)
 }
@@ -253,18 +322,14 @@ func HSto(h, obj, slot, v *Term) *Term {
 // datatype helpers
 func MkPtr(obj, slot *Term) *Term { return app(SPtr, "mkptr", obj, slot) }
 func PObj(p *Term) *Term {
-	if strings.HasPrefix(p.S, "(mkptr ") {
-		if a, _, ok := split2(p.S[len("(mkptr ") : len(p.S)-1]); ok {
-			return mk(SInt, a)
-		}
+	if a := ctorArgs(p, "mkptr"); len(a) == 2 {
+		return mk(SInt, a[0])
 	}
 	return app(SInt, "pobj", p)
 }
 func PSlot(p *Term) *Term {
-	if strings.HasPrefix(p.S, "(mkptr ") {
-		if _, b, ok := split2(p.S[len("(mkptr ") : len(p.S)-1]); ok {
-			return mk(SInt, b)
-		}
+	if a := ctorArgs(p, "mkptr"); len(a) == 2 {
+		return mk(SInt, a[1])
 	}
 	return app(SInt, "pslot", p)
 }
@@ -303,14 +368,30 @@ func split2(s string) (string, string, bool) {
 }
 
 func MkSlice(arr, off, ln, cp *Term) *Term { return app(SSlice, "mkslice", arr, off, ln, cp) }
-func SArr(s *Term) *Term                   { return app(SInt, "sarr", s) }
-func SOff(s *Term) *Term                   { return app(SInt, "soff", s) }
-func SLen(s *Term) *Term                   { return app(SInt, "slen", s) }
-func SCap(s *Term) *Term                   { return app(SInt, "scap", s) }
+func sliceSel(s *Term, i int, name string) *Term {
+	if a := ctorArgs(s, "mkslice"); len(a) == 4 {
+		return mk(SInt, a[i])
+	}
+	return app(SInt, name, s)
+}
+func SArr(s *Term) *Term { return sliceSel(s, 0, "sarr") }
+func SOff(s *Term) *Term { return sliceSel(s, 1, "soff") }
+func SLen(s *Term) *Term { return sliceSel(s, 2, "slen") }
+func SCap(s *Term) *Term { return sliceSel(s, 3, "scap") }
 
 func MkIface(tag, pay *Term) *Term { return app(SIface, "mkiface", tag, pay) }
-func ITag(i *Term) *Term           { return app(SInt, "itag", i) }
-func IPay(i *Term) *Term           { return app(SInt, "ipay", i) }
+func ITag(i *Term) *Term {
+	if a := ctorArgs(i, "mkiface"); len(a) == 2 {
+		return mk(SInt, a[0])
+	}
+	return app(SInt, "itag", i)
+}
+func IPay(i *Term) *Term {
+	if a := ctorArgs(i, "mkiface"); len(a) == 2 {
+		return mk(SInt, a[1])
+	}
+	return app(SInt, "ipay", i)
+}
 
 var NilPtr = mk(SPtr, "(mkptr 0 0)")
 var NilSlice = mk(SSlice, "(mkslice 0 0 0 0)")
@@ -351,7 +432,8 @@ func (s *Script) Define(prefix string, t *Term) *Term {
 		return t
 	}
 	c := s.Fresh(prefix, t.Sort)
-	s.facts = append(s.facts, Eq(c, t).S)
+	s.facts = append(s.facts, app(SBool, "=", c, t).S)
+	defTable[c.S] = t
 	return c
 }
 
@@ -416,6 +498,14 @@ const preludeSorts = `(declare-sort Str 0)
 (declare-fun mkstr ((Array Int Int) Int Int) Str)
 (declare-fun strcat (Str Str) Str)
 (declare-fun strlt (Str Str) Bool)
+(define-fun clamp_uint8 ((x Int)) Int (ite (and (<= 0 x) (<= x 255)) x 0))
+(define-fun clamp_int8 ((x Int)) Int (ite (and (<= (- 128) x) (<= x 127)) x 0))
+(define-fun clamp_uint16 ((x Int)) Int (ite (and (<= 0 x) (<= x 65535)) x 0))
+(define-fun clamp_int16 ((x Int)) Int (ite (and (<= (- 32768) x) (<= x 32767)) x 0))
+(define-fun clamp_uint32 ((x Int)) Int (ite (and (<= 0 x) (<= x 4294967295)) x 0))
+(define-fun clamp_int32 ((x Int)) Int (ite (and (<= (- 2147483648) x) (<= x 2147483647)) x 0))
+(define-fun clamp_uint64 ((x Int)) Int (ite (and (<= 0 x) (<= x 18446744073709551615)) x 0))
+(define-fun clamp_int64 ((x Int)) Int (ite (and (<= (- 9223372036854775808) x) (<= x 9223372036854775807)) x 0))
 (declare-fun int2flt (Int) Flt)
 (declare-fun fltbits (Flt) Int)
 (declare-fun bits2flt (Int) Flt)
@@ -436,8 +526,10 @@ const preludeMdCex = `(define-fun md ((a Int) (b Int)) Int (ite (>= a 0) (mod a 
 
 const preludeStr = `(assert (forall ((s Str)) (! (>= (strlen s) 0) :pattern ((strlen s)))))
 (assert (forall ((m (Array Int Int)) (o Int) (n Int)) (! (=> (>= n 0) (= (strlen (mkstr m o n)) n)) :pattern ((mkstr m o n)))))
-(assert (forall ((m (Array Int Int)) (o Int) (n Int) (i Int)) (! (=> (and (<= 0 i) (< i n)) (= (strbyte (mkstr m o n) i) (select m (+ o i)))) :pattern ((strbyte (mkstr m o n) i)))))
+(assert (forall ((m (Array Int Int)) (o Int) (n Int) (i Int)) (! (=> (and (<= 0 i) (< i n)) (= (strbyte (mkstr m o n) i) (clamp_uint8 (elt_Int m o i)))) :pattern ((strbyte (mkstr m o n) i)))))
 (assert (forall ((a Str) (b Str)) (! (= (strlen (strcat a b)) (+ (strlen a) (strlen b))) :pattern ((strcat a b)))))
+(declare-fun sdiff ((Array Int Int) Int (Array Int Int) Int Int) Int)
+(assert (forall ((m1 (Array Int Int)) (o1 Int) (n1 Int) (m2 (Array Int Int)) (o2 Int) (n2 Int)) (! (=> (and (= n1 n2) (>= n1 0) (=> (and (<= 0 (sdiff m1 o1 m2 o2 n1)) (< (sdiff m1 o1 m2 o2 n1) n1)) (= (clamp_uint8 (elt_Int m1 o1 (sdiff m1 o1 m2 o2 n1))) (clamp_uint8 (elt_Int m2 o2 (sdiff m1 o1 m2 o2 n1)))))) (= (mkstr m1 o1 n1) (mkstr m2 o2 n2))) :pattern ((mkstr m1 o1 n1) (mkstr m2 o2 n2)))))
 `
 
 // Render produces a full SMT-LIB script checking that goal follows from the facts, i.e. asserts
@@ -484,6 +576,28 @@ func (s *Script) render(nfacts int, negGoal string, wantModel bool, forCVC5 bool
 		scan(f)
 	}
 	sb.WriteString(preludeSorts)
+	// elt_S(row, off, i): element i of a slice view (off) of array row; defined by its axiom, used in
+	// quantified spec formulas so that triggers do not contain arithmetic
+	for _, srt := range []Sort{SInt, SBool, SStr, SPtr, SSlice, SIface, SFlt} {
+		name := "elt_" + string(srt)
+		used := srt == SInt && usesStr
+		if !used {
+			if strings.Contains(negGoal, "("+name+" ") {
+				used = true
+			} else {
+				for _, f := range s.facts[:nfacts] {
+					if strings.Contains(f, "("+name+" ") {
+						used = true
+						break
+					}
+				}
+			}
+		}
+		if used {
+			fmt.Fprintf(&sb, "(declare-fun %s ((Array Int %s) Int Int) %s)\n", name, srt, srt)
+			fmt.Fprintf(&sb, "(assert (forall ((m (Array Int %s)) (o Int) (i Int)) (! (= (%s m o i) (select m (+ o i))) :pattern ((%s m o i)))))\n", srt, name, name)
+		}
+	}
 	if usesMd {
 		if cex {
 			sb.WriteString(preludeMdCex)
